@@ -720,7 +720,28 @@ func Join(locs ...Location) Location {
 	// Push works on the last node of the list it is given, so handing it the
 	// current tail instead of the head keeps joining n locations linear.
 	tail := &list
-	for _, loc := range locs {
+	for i := 0; i < len(locs); i++ {
+		loc := locs[i]
+		// A run of complemented locations becomes the complement of their
+		// members joined in reverse order. Push does that pair by pair, joining
+		// the whole run again for every member; joining the run once keeps a
+		// join of n complemented locations linear.
+		if _, ok := loc.(Complemented); ok {
+			j := i
+			for j+1 < len(locs) {
+				if _, ok := locs[j+1].(Complemented); !ok {
+					break
+				}
+				j++
+			}
+			if j > i+1 {
+				inner := make([]Location, 0, j-i+1)
+				for k := j; k >= i; k-- {
+					inner = append(inner, locs[k].(Complemented).Location)
+				}
+				loc, i = Complemented{Join(inner...)}, j
+			}
+		}
 		tail.Push(loc, true)
 		for tail.Next != nil {
 			tail = tail.Next
